@@ -90,6 +90,46 @@ pub fn run_all() -> (Vec<(String, String, serde_json::Value)>, u64) {
             }
         }
     }
+    // Several threads encoding and decoding at the same time (free-running: a smoke test for
+    // process-wide mutable state, not an exhaustive exploration): every output must equal the
+    // single-threaded reference of the same input.
+    {
+        let subj = subjects();
+        let built: Vec<_> = subj.iter().take(3).map(|(l, d)| (l.clone(), build_plan(d, Codec::Binary).realise(How::Nested, None))).collect();
+        let refs: Vec<Vec<Result<Vec<u8>, String>>> = built.iter().map(|(_, r)| (0..4u8).map(|c| encode(&r.dom, &[r.refs[0]], c)).collect()).collect();
+        let problems = std::sync::Mutex::new(Vec::new());
+        std::thread::scope(|s| {
+            for t in 0..8usize {
+                let built = &built;
+                let refs = &refs;
+                let problems = &problems;
+                s.spawn(move || {
+                    for round in 0..40usize {
+                        let k = (t + round) % built.len();
+                        let codec = ((t / 2 + round) % 4) as u8;
+                        let got = encode(&built[k].1.dom, &[built[k].1.refs[0]], codec);
+                        if got != refs[k][codec as usize] {
+                            problems.lock().unwrap().push((built[k].0.clone(), codec));
+                        }
+                        if let Ok(bytes) = &got {
+                            let ok = if codec < 3 { rbx_binary::from_reader(bytes.as_slice()).is_ok() } else { rbx_xml::from_reader_default(bytes.as_slice()).is_ok() };
+                            if !ok {
+                                problems.lock().unwrap().push((format!("{} (decode)", built[k].0), codec));
+                            }
+                        }
+                    }
+                });
+            }
+        });
+        n += 8 * 40;
+        for (label, codec) in problems.into_inner().unwrap() {
+            out.push((
+                format!("c07|concurrent-calls|{}", if codec < 3 { "binary" } else { "xml" }),
+                format!("{}: written while seven other threads were encoding and decoding, the output differs from the single-threaded one (codec {})", label, codec),
+                serde_json::json!({"call_history": {"concurrent": true}}),
+            ));
+        }
+    }
     out.sort_by(|x, y| x.0.cmp(&y.0));
     out.dedup_by(|x, y| x.0 == y.0);
     (out, n)
